@@ -402,6 +402,20 @@ fn gen_plan(r: &mut Rng, toks: &[String], next_probe: &mut i32) -> Vec<Step> {
     plan
 }
 
+/// fixed cases that run first in every run (the minimised inputs of recorded defects): body, instruction index, mode
+const FIXED: &[(&str, usize, usize)] = &[
+    // F14: br_table with two different target blocks, semantic-after on it: the flag is never cleared
+    ("block block i32.const 0 br_table 0 1 end i32.const 1 call $log end i32.const 2 call $log", 3, 3),
+    // F15: semantic-after on a branch to the function label
+    ("i32.const 5 call $log br 0", 2, 3),
+    // F27: three flagged bodies at one end
+    ("block i32.const 0 br_table 0 0 0 end", 2, 3),
+    // F13 (repaired): block-exit on an `if` whose then-arm starts with a nested block
+    ("i32.const 1 if block nop end i32.const 3 call $log end", 1, 5),
+    // F14 in a loop: the target block is re-entered and left by falling through after the branch was taken once
+    ("i32.const 2 local.set 2 loop block local.get 2 i32.const 2 i32.eq br_if 0 i32.const 4 call $log end local.get 2 i32.const 1 i32.sub local.tee 2 br_if 0 end", 7, 3),
+];
+
 pub fn run(ctx: &mut Ctx) {
     let fam = "sem";
     PROBE_CALL.with(|c| c.set(Some(0)));
@@ -410,21 +424,27 @@ pub fn run(ctx: &mut Ctx) {
             continue;
         }
         let mut r = Rng::new(ctx.seed, fam, case);
-        let nparams = r.below(3);
-        let nres = r.weighted(&[3, 3, 1]);
+        let fixed = FIXED.get(case as usize);
+        let nparams = if fixed.is_some() { 0 } else { r.below(3) };
+        let nres = if fixed.is_some() { 0 } else { r.weighted(&[3, 3, 1]) };
         let nscratch = 2;
         let max_loops = 3;
+        let extra_locals: (&str, usize) = if fixed.is_some() { ("", 0) } else { *r.pick(&[("", 0), ("", 0), (" (local i64)", 1), (" (local f32 i64)", 2), (" (local i64 i32 f64)", 3)]) };
         let wat;
         let nloops;
         {
             let mut g = G { r: &mut r, out: vec![], labels: vec![(LK::Func, nres)], nparams, nscratch, nloops: 0, max_loops, nres, next_log: 1, budget: 40 };
-            let n0 = g.r.range(1, 5);
-            let div = g.stmts(0, n0);
-            if !div || g.r.chance(1, 2) {
-                g.values_for(nres, 0);
+            if let Some((body, _, _)) = fixed {
+                g.out.push(body.to_string());
             } else {
-                for _ in 0..nres {
-                    g.emit("i32.const 0");
+                let n0 = g.r.range(1, 5);
+                let div = g.stmts(0, n0);
+                if !div || g.r.chance(1, 2) {
+                    g.values_for(nres, 0);
+                } else {
+                    for _ in 0..nres {
+                        g.emit("i32.const 0");
+                    }
                 }
             }
             nloops = g.nloops;
@@ -438,6 +458,8 @@ pub fn run(ctx: &mut Ctx) {
             for _ in 0..(nscratch + max_loops) {
                 w.push_str(" (local i32)");
             }
+            // unused locals of other types behind the i32 ones (several run-length groups; the last one not i32)
+            w.push_str(extra_locals.0);
             w.push('\n');
             w.push_str(&g.out.join("\n"));
             w.push_str(")\n  (func $h1 (param i32) (result i32) local.get 0 i32.const 3 i32.mul i32.const 1 i32.add)\n");
@@ -446,14 +468,17 @@ pub fn run(ctx: &mut Ctx) {
             w.push_str("  (export \"t\" (func $t))\n)\n");
             wat = w;
         }
-        let nl = nscratch + max_loops;
+        let nl = nscratch + max_loops + extra_locals.1;
         let bytes = wat::parse_str(&wat).unwrap_or_else(|e| panic!("bad wat {e}\n{wat}"));
         if let Err(e) = wasmparser::Validator::new_with_features(wasmparser::WasmFeatures::all()).validate_all(&bytes) {
             panic!("generator produced an invalid program: {e}\n{wat}");
         }
         let (toks, _) = body_toks(&bytes, 0).unwrap();
         let mut np = 1000;
-        let plan = gen_plan(&mut r, &toks, &mut np);
+        let plan = match fixed {
+            Some((_, idx, mode)) => vec![Step::At { idx: *idx, mode: *mode, probes: vec![1001] }],
+            None => gen_plan(&mut r, &toks, &mut np),
+        };
         let path = PATHS[r.below(PATHS.len())];
         let lowered = instrument(&wat, 0, 1, path, &plan, toks.len(), nl);
         // callees as the driver reads them
